@@ -602,10 +602,14 @@ func c16CompareTable(ti int, lines []string, t *c16CSVTable, warns map[int][]c16
 		if !ok {
 			return nil, c16Unp("text-footnote")
 		}
-		if prev, dup := foot[n]; dup && prev != lines[i][sp+1:] {
-			return kit.Failf("bs-footnote-number", "table %d: two footnote lines carry the number %d (%q): %q and %q, so the marks in the cells do not identify one warning%s", ti, n, lines[i][:sp], prev, lines[i][sp+1:], ctx()), nil
+		// the blanks between the mark and the text are layout (a benign change
+		// that left-justifies the marks to a common width fired here - false
+		// alarm corrected, DESIGN.md 9.5)
+		txt := strings.TrimLeft(lines[i][sp+1:], " ")
+		if prev, dup := foot[n]; dup && prev != txt {
+			return kit.Failf("bs-footnote-number", "table %d: two footnote lines carry the number %d (%q): %q and %q, so the marks in the cells do not identify one warning%s", ti, n, lines[i][:sp], prev, txt, ctx()), nil
 		}
-		foot[n] = lines[i][sp+1:]
+		foot[n] = txt
 	}
 	if len(foot) > st.maxFoot {
 		st.maxFoot = len(foot)
